@@ -8,7 +8,7 @@ use crate::{
 
 pub const TEXTS_FULL: &[&str] = &["", "a", "\n", "ab\n", "a;b", "a\nb", "a\n\nb;\n", "a; {b}\n c"];
 pub const TEXTS_REDUCED: &[&str] = &["", "a", "\n", "a\nb", "a;b\n"];
-pub const TEXTS_MB: &[&str] = &["é", "a€\n", "𝒳;y", "é\n€b", "b;€", "€"];
+pub const TEXTS_MB: &[&str] = &["é", "a€\n", "𝒳;y", "é\n€b", "b;€", "€", "a\n\r\nb", "\r\nx;\r", "a;\ré"];
 
 pub struct Striper {
   pub k: usize,
